@@ -157,7 +157,9 @@ var eofEvent = &event{tok: "T0", err: io.EOF, term: 0, plainTerminal: true}
 type source struct {
 	evs   []*event
 	zero  bool
-	buf   [maxData]byte // the ONE buffer of a zero-copy source
+	reuse bool // a plain (ReadPacketData) source that also hands out ONE reused buffer: legal, and invisible to a
+	// copying decode ("a delivered packet is never altered by later reads of the data source")
+	buf   [maxData]byte // the ONE buffer of a zero-copy / reusing source
 	n     int           // reads started
 	gated bool
 	enter chan int
@@ -171,7 +173,7 @@ func (s *source) deliver(ev *event) ([]byte, gopacket.CaptureInfo, error) {
 	}
 	ci := gopacket.CaptureInfo{Timestamp: time.Unix(int64(ev.tag), 0), CaptureLength: ev.caplen, Length: ev.length,
 		InterfaceIndex: ev.tag, AncillaryData: []interface{}{ev.tag}}
-	if s.zero {
+	if s.zero || s.reuse {
 		copy(s.buf[:], ev.data)
 		return s.buf[:len(ev.data)], ci, nil
 	}
@@ -319,7 +321,7 @@ func doPull(zero bool, optS string, n int, evs []*event) string {
 	if !ok {
 		return "bad-op"
 	}
-	s := &source{evs: evs, zero: zero}
+	s := &source{evs: evs, zero: zero, reuse: !zero && !nocopy}
 	ps := mkPS(s, opts)
 	mode := fmt.Sprintf("pull-zc%s-nocopy%s", b01(zero), b01(nocopy))
 	type res struct {
@@ -528,7 +530,7 @@ func doChanOnce(zero bool, optS, consumer, cancelS string, evs []*event) (string
 	mode := fmt.Sprintf("chan-zc%s-nocopy%s", b01(zero), b01(nocopy))
 
 	baseline := runtime.NumGoroutine()
-	s := &source{evs: evs, zero: zero, gated: true, enter: make(chan int), rel: make(chan *event), abort: make(chan struct{})}
+	s := &source{evs: evs, zero: zero, reuse: !zero && !nocopy, gated: true, enter: make(chan int), rel: make(chan *event), abort: make(chan struct{})}
 	defer close(s.abort)
 	ps := mkPS(s, opts)
 	ctx, cancel := context.WithCancel(context.Background())
